@@ -189,3 +189,19 @@ pub fn new_is_valid(t0: u8, t1: u8) -> u32 {
     assert!(inv_q(&q) && q.active() == cid_of(t1) && q.active_seq() == 0);
     1
 }
+
+/// Native probe for a failed unwinding assertion of `cidq_insert_step` (C03: bounded step count per input): one
+/// NEW_CONNECTION_ID with `sequence = retire_prior_to = retire_prior_to` against a fresh queue, run on a helper
+/// thread.  The ring has 5 slots; whatever the peer writes into the frame, the insertion is a handful of steps.
+pub fn insert_step_count_native(retire_prior_to: u64) -> u32 {
+    let (tx, rx) = std::sync::mpsc::channel();
+    std::thread::spawn(move || {
+        let mut q = CidQueue::new(cid_of(1));
+        let r = q.insert(NewConnectionId { sequence: retire_prior_to, retire_prior_to, id: cid_of(2), reset_token: tok_of(2) });
+        let _ = tx.send(r.is_ok());
+    });
+    match rx.recv_timeout(std::time::Duration::from_secs(10)) {
+        Ok(_) => 1,
+        Err(_) => panic!("CidQueue::insert did not return within 10 s for retire_prior_to = {}: its step count is controlled by the peer", retire_prior_to),
+    }
+}
